@@ -908,3 +908,117 @@ def gen_builtins():
     lines.append("Definition venom_flag_converts : list (cty * cty * vtemplate) := [\n" +
                  ";\n".join(f"  ({ci}, {co}, {vtemplate_term(*t)})" for ci, co, _, _, t in fv) + "\n].\n")
     return "\n".join(lines), l, v, fl, fv
+
+
+# ---------------------------------------------------------------- convert() with LITERAL sources (_literal_int / _literal_decimal)
+def literal_sources():
+    """[(source text, kind)]: boundary literals of every kind (Int, Decimal, Hex = bytesM, bool)"""
+    ints = set()
+    for b in (8, 16, 128, 160, 168, 248, 256):
+        ints |= {2**b - 1, 2**b, 2**(b - 1) - 1, 2**(b - 1), -(2**(b - 1)), -(2**(b - 1)) - 1}
+    q = 2**167 // 10**10
+    ints |= {0, 1, -1, 2, 7, 10**10, q, q + 1, -q, -q - 1}
+    ints = sorted(v for v in ints if -2**255 <= v < 2**256)
+    decs = ["0.0", "1.0", "-1.0", "0.5", "-0.5", "1.5", "-1.5", "127.0", "127.9", "128.0", "-128.0", "-128.9", "-129.0", "255.0",
+            "255.5", "256.0", "0.0000000001", "-0.0000000001", "18707220957835557353007165858768422651595.9365500927",
+            "-18707220957835557353007165858768422651595.9365500928", "340282366920938463463374607431768211455.0",
+            "340282366920938463463374607431768211456.0", "1461501637330902918203684832716283019655932542975.0"]
+    hexes = set()
+    for m in (1, 2, 4, 16, 21, 31, 32):     # 20 bytes is an address literal
+        for pat in ("00", "ff", "80", "7f", "01"):
+            hexes.add("0x" + pat + "00" * (m - 1))
+            hexes.add("0x" + "00" * (m - 1) + pat)
+        hexes.add("0x" + "ff" * m)
+        hexes.add("0x" + "7f" + "ff" * (m - 1))
+    return [(str(v), "int") for v in ints] + [(d, "dec") for d in decs] + [(h, "hex") for h in sorted(hexes)] + \
+           [("True", "bool"), ("False", "bool")]
+
+
+def word_type_key(T):
+    from vyper.semantics.types import AddressT, BoolT, BytesM_T, DecimalT, IntegerT
+    if isinstance(T, IntegerT):
+        return ("num", T.bits // 8, T.is_signed, False)
+    if isinstance(T, DecimalT):
+        return ("num", 21, True, True)
+    if isinstance(T, BoolT):
+        return ("bool",)
+    if isinstance(T, AddressT):
+        return ("addr",)
+    if isinstance(T, BytesM_T):
+        return ("bytes", T.m)
+    return None
+
+
+def literal_convert_one(src_lit, tname):
+    """`convert(<literal>, T)` through the REAL front end (parse + semantic analysis) and then the REAL legacy `convert` and
+    venom `lower_convert` on the annotated call node.
+    -> None if the front end rejects the program, else (type key of the literal, value, legacy result, venom result) with
+    result = ("ok", template) | ("reject", exception name) | ("crash", text)"""
+    from vyper import ast as vy_ast
+    from vyper.builtins import _convert as CV
+    from vyper.codegen_venom.builtins import convert as VC
+    from vyper.compiler.phases import CompilerData
+    from vyper.compiler.settings import OptimizationLevel, Settings
+    from vyper.exceptions import VyperException
+    src = f"@external\ndef f() -> {tname}:\n    return convert({src_lit}, {tname})\n"
+    try:
+        mod = CompilerData(src, settings=Settings(optimize=OptimizationLevel.GAS)).annotated_vyper_module
+    except VyperException:
+        return None
+    c = [n for n in mod.get_descendants(vy_ast.Call) if getattr(n.func, "id", None) == "convert"][0]
+    a = c.args[0].reduced()
+    ki = word_type_key(a._metadata["type"])
+    if ki is None:
+        return None
+    if isinstance(a, vy_ast.Hex):
+        v = int(a.value, 16)
+    elif isinstance(a, vy_ast.Decimal):
+        v = int(a.value * 10**10)
+    else:
+        v = int(a.value)
+    res = []
+    with settings_ctx():
+        for kind in ("legacy", "venom"):
+            try:
+                if kind == "legacy":
+                    res.append(("ok", CV.convert(c, None)))
+                else:
+                    res.append(("ok", venom_recordn(
+                        lambda b: VC.lower_convert(c, types.SimpleNamespace(builder=b, unwrap=lambda vv: vv.operand)), 0)))
+            except VyperException as e:
+                res.append(("reject", type(e).__name__))
+            except Exception as e:  # noqa
+                res.append(("crash", f"{type(e).__name__}: {e}"[:200]))
+    return ki, v, res[0], res[1]
+
+
+def literal_convert_family(sample=None, rnd=None):
+    """[(literal text, cty term in, cty term out, key in, key out, value, legacy result, venom result)] over
+    literal_sources() x word types (no flags); `sample`: fraction of the cross product (seeded by rnd)"""
+    cterm = {ko: co for co, ko, _ in conv_types()}
+    out = []
+    for co, ko, T in conv_types():
+        if ko[0] == "flag":
+            continue
+        for lit, _ in literal_sources():
+            if sample is not None and rnd.random() >= sample:
+                continue
+            r = literal_convert_one(lit, str(T))
+            if r is None:
+                continue
+            ki, v, rl, rv = r
+            out.append((lit, cterm[ki], co, ki, ko, v, rl, rv))
+    return out
+
+
+def gen_literal_converts(sample=None, rnd=None):
+    fam = literal_convert_family(sample, rnd)
+    lines = [HEADER.replace("C03.ArithSpec.", "C03.ArithSpec C03.ConvSpec.")]
+
+    def opt(r, term):
+        return f"(Some {term(r[1])})" if r[0] == "ok" else "None"
+    lines.append("Definition legacy_litconverts : list (cty * cty * Z * option lir) := [\n" +
+                 ";\n".join(f"  ({ci}, {co}, {zl(v)}, {opt(rl, lir_term)})" for _, ci, co, _, _, v, rl, _ in fam if rl[0] != "crash") + "\n].\n")
+    lines.append("Definition venom_litconverts : list (cty * cty * Z * option vtemplate) := [\n" +
+                 ";\n".join(f"  ({ci}, {co}, {zl(v)}, {opt(rv, lambda t: vtemplate_term(*t))})" for _, ci, co, _, _, v, _, rv in fam if rv[0] != "crash") + "\n].\n")
+    return "\n".join(lines), fam
